@@ -21,7 +21,7 @@ theorem attrList_mono (D : Disk) (n : Nat) (st : St) (v : Val) (a) (st' : St)
       have := scopeOf_mono D n _ _ _ _ hsc
       cases ot <;> (okinj h; exact this)
 
-theorem attrList_correct {E D : Disk} (hD : AbsDisk D) {n : Nat} {st : St} {v : Val} {a} {st' : St} (hc : Correct E st)
+theorem attrList_correct {E D : Disk} {n : Nat} {st : St} {v : Val} {a} {st' : St} (hc : Correct E st)
     (hv : ValIn st v) (h : attrList D n st v = .ok (a, st')) (hag : AgreeOn st' D E) :
     Correct E st' ∧ Keeps st st' := by
   cases v with
@@ -36,10 +36,10 @@ theorem attrList_correct {E D : Disk} (hD : AbsDisk D) {n : Nat} {st : St} {v : 
       rw [hsc] at h
       have hst : st' = st1 := by cases ot <;> (simp only [Except.ok.injEq, Prod.mk.injEq] at h; exact h.2.symm)
       subst hst
-      obtain ⟨hc1, hk1, _⟩ := scopeOf_correct E D hD n _ _ _ _ hc hv hsc hag
+      obtain ⟨hc1, hk1, _⟩ := scopeOf_correct E D n _ _ _ _ hc hv hsc hag
       exact ⟨hc1, hk1⟩
 
-theorem attrList_agree {D : Disk} (hD : AbsDisk D) {n1 n2 : Nat} {st1 st2 : St} {v : Val} {a1 a2} {s1 s2 : St}
+theorem attrList_agree {D : Disk} {n1 n2 : Nat} {st1 st2 : St} {v : Val} {a1 a2} {s1 s2 : St}
     (hc1 : Correct D st1) (hc2 : Correct D st2) (hv1 : ValIn st1 v) (hv2 : ValIn st2 v)
     (h1 : attrList D n1 st1 v = .ok (a1, s1)) (h2 : attrList D n2 st2 v = .ok (a2, s2)) : a1 = a2 := by
   cases v with
@@ -56,8 +56,8 @@ theorem attrList_agree {D : Disk} (hD : AbsDisk D) {n1 n2 : Nat} {st1 st2 : St} 
         obtain ⟨ot1, u1⟩ := p1
         obtain ⟨ot2, u2⟩ := p2
         rw [hsc1] at h1; rw [hsc2] at h2
-        obtain ⟨_, _, t1, hot1, hev1, _⟩ := scopeOf_correct D D hD n1 _ _ _ _ hc1 hv1 hsc1 (agreeOn_refl _ _)
-        obtain ⟨_, _, t2, hot2, hev2, _⟩ := scopeOf_correct D D hD n2 _ _ _ _ hc2 hv2 hsc2 (agreeOn_refl _ _)
+        obtain ⟨_, _, t1, hot1, hev1⟩ := scopeOf_correct D D n1 _ _ _ _ hc1 hv1 hsc1 (agreeOn_refl _ _)
+        obtain ⟨_, _, t2, hot2, hev2⟩ := scopeOf_correct D D n2 _ _ _ _ hc2 hv2 hsc2 (agreeOn_refl _ _)
         subst hot1; subst hot2
         have := hev1.unique hev2
         simp only [Option.some.injEq] at this; subst this
@@ -78,13 +78,13 @@ theorem getAttr_mono (D : Disk) (n : Nat) (st : St) (y : Ident) (v : Val) (a) (s
       have := scopeOf_mono D n _ _ _ _ hsc
       cases ot <;> (okinj h; exact this)
 
-theorem getAttr_correct {E D : Disk} (hD : AbsDisk D) {n : Nat} {st : St} {y : Ident} {v : Val} {a} {st' : St}
+theorem getAttr_correct {E D : Disk} {n : Nat} {st : St} {y : Ident} {v : Val} {a} {st' : St}
     (hc : Correct E st)
     (hv : ValIn st v) (h : getAttr D n st y v = .ok (a, st')) (hag : AgreeOn st' D E) :
-    Correct E st' ∧ Keeps st st' ∧ ∀ k e, a = some (k, e) → e.isAbs = true := by
+    Correct E st' ∧ Keeps st st' := by
   cases v with
-  | nothing => simp only [getAttr] at h; okinj h; exact ⟨hc, Keeps.refl _, by simp⟩
-  | obj p => simp only [getAttr] at h; okinj h; exact ⟨hc, Keeps.refl _, by simp⟩
+  | nothing => simp only [getAttr] at h; okinj h; exact ⟨hc, Keeps.refl _⟩
+  | obj p => simp only [getAttr] at h; okinj h; exact ⟨hc, Keeps.refl _⟩
   | module k =>
     simp only [getAttr] at h
     cases hsc : scopeOf D n st k with
@@ -94,18 +94,10 @@ theorem getAttr_correct {E D : Disk} (hD : AbsDisk D) {n : Nat} {st : St} {y : I
       rw [hsc] at h
       have hst : st' = st1 := by cases ot <;> (simp only [Except.ok.injEq, Prod.mk.injEq] at h; exact h.2.symm)
       subst hst
-      obtain ⟨hc1, hk1, t, hot, _, hta⟩ := scopeOf_correct E D hD n _ _ _ _ hc hv hsc hag
-      subst hot
-      simp only [Except.ok.injEq, Prod.mk.injEq] at h
-      refine ⟨hc1, hk1, fun k' e he => ?_⟩
-      rw [← h.1] at he
-      cases hl : lookupLast y t with
-      | none => rw [hl] at he; cases he
-      | some e0 =>
-        rw [hl] at he; simp only [Option.map_some, Option.some.injEq, Prod.mk.injEq] at he
-        rw [← he.2]; exact hta e0 (lookupLast_mem t y e0 hl)
+      obtain ⟨hc1, hk1, _⟩ := scopeOf_correct E D n _ _ _ _ hc hv hsc hag
+      exact ⟨hc1, hk1⟩
 
-theorem getAttr_agree {D : Disk} (hD : AbsDisk D) {n1 n2 : Nat} {st1 st2 : St} {y : Ident} {v : Val} {a1 a2} {s1 s2 : St}
+theorem getAttr_agree {D : Disk} {n1 n2 : Nat} {st1 st2 : St} {y : Ident} {v : Val} {a1 a2} {s1 s2 : St}
     (hc1 : Correct D st1) (hc2 : Correct D st2) (hv1 : ValIn st1 v) (hv2 : ValIn st2 v)
     (h1 : getAttr D n1 st1 y v = .ok (a1, s1)) (h2 : getAttr D n2 st2 y v = .ok (a2, s2)) : a1 = a2 := by
   cases v with
@@ -122,8 +114,8 @@ theorem getAttr_agree {D : Disk} (hD : AbsDisk D) {n1 n2 : Nat} {st1 st2 : St} {
         obtain ⟨ot1, u1⟩ := p1
         obtain ⟨ot2, u2⟩ := p2
         rw [hsc1] at h1; rw [hsc2] at h2
-        obtain ⟨_, _, t1, hot1, hev1, _⟩ := scopeOf_correct D D hD n1 _ _ _ _ hc1 hv1 hsc1 (agreeOn_refl _ _)
-        obtain ⟨_, _, t2, hot2, hev2, _⟩ := scopeOf_correct D D hD n2 _ _ _ _ hc2 hv2 hsc2 (agreeOn_refl _ _)
+        obtain ⟨_, _, t1, hot1, hev1⟩ := scopeOf_correct D D n1 _ _ _ _ hc1 hv1 hsc1 (agreeOn_refl _ _)
+        obtain ⟨_, _, t2, hot2, hev2⟩ := scopeOf_correct D D n2 _ _ _ _ hc2 hv2 hsc2 (agreeOn_refl _ _)
         subst hot1; subst hot2
         have := hev1.unique hev2
         simp only [Option.some.injEq] at this; subst this
@@ -225,7 +217,7 @@ theorem attrChain_mono {D : Disk} {n : Nat} {st : St} {m mn y r} {st' : St}
           rw [hf2] at h; okinj h
           exact hm1.trans (hm2.trans (follow_mono D n _ _ _ _ _ hf2))
 
-theorem attrChain_correct {E D : Disk} (hD : AbsDisk D) {n : Nat} {st : St} {m mn y r} {st' : St} (hc : Correct E st)
+theorem attrChain_correct {E D : Disk} {n : Nat} {st : St} {m mn y r} {st' : St} (hc : Correct E st)
     (h : attrChain D n st m mn y = .ok (r, st')) (hag : AgreeOn st' D E) :
     Correct E st' ∧ Keeps st st' ∧ OptValIn st' r := by
   simp only [attrChain] at h
@@ -243,8 +235,8 @@ theorem attrChain_correct {E D : Disk} (hD : AbsDisk D) {n : Nat} {st : St} {m m
       cases oe with
       | none =>
         okinj h
-        obtain ⟨hc1, hk1, hv1⟩ := follow_correct hD n _ _ _ _ _ hc rfl hf (hag.mono hm2)
-        obtain ⟨hc2, hk2, _⟩ := getAttr_correct hD hc1 hv1 hga hag
+        obtain ⟨hc1, hk1, hv1⟩ := follow_correct n _ _ _ _ _ hc hf (hag.mono hm2)
+        obtain ⟨hc2, hk2⟩ := getAttr_correct hc1 hv1 hga hag
         exact ⟨hc2, hk1.trans hk2, trivial⟩
       | some ke =>
         obtain ⟨k, e⟩ := ke
@@ -255,12 +247,12 @@ theorem attrChain_correct {E D : Disk} (hD : AbsDisk D) {n : Nat} {st : St} {m m
           obtain ⟨r2, st3⟩ := r2
           rw [hf2] at h; okinj h
           have hm3 := follow_mono D n _ _ _ _ _ hf2
-          obtain ⟨hc1, hk1, hv1⟩ := follow_correct hD n _ _ _ _ _ hc rfl hf (hag.mono (hm2.trans hm3))
-          obtain ⟨hc2, hk2, hea⟩ := getAttr_correct hD hc1 hv1 hga (hag.mono hm3)
-          obtain ⟨hc3, hk3, hv3⟩ := follow_correct hD n _ _ _ _ _ hc2 (hea k e rfl) hf2 hag
+          obtain ⟨hc1, hk1, hv1⟩ := follow_correct n _ _ _ _ _ hc hf (hag.mono (hm2.trans hm3))
+          obtain ⟨hc2, hk2⟩ := getAttr_correct hc1 hv1 hga (hag.mono hm3)
+          obtain ⟨hc3, hk3, hv3⟩ := follow_correct n _ _ _ _ _ hc2 hf2 hag
           exact ⟨hc3, hk1.trans (hk2.trans hk3), hv3⟩
 
-theorem attrChain_agree {D : Disk} (hD : AbsDisk D) {n1 n2 : Nat} {st1 st2 : St} {m mn y r1 r2} {s1 s2 : St}
+theorem attrChain_agree {D : Disk} {n1 n2 : Nat} {st1 st2 : St} {m mn y r1 r2} {s1 s2 : St}
     (hc1 : Correct D st1) (hc2 : Correct D st2)
     (h1 : attrChain D n1 st1 m mn y = .ok (r1, s1)) (h2 : attrChain D n2 st2 m mn y = .ok (r2, s2)) :
     r1 = r2 := by
@@ -274,11 +266,11 @@ theorem attrChain_agree {D : Disk} (hD : AbsDisk D) {n1 n2 : Nat} {st1 st2 : St}
       obtain ⟨⟨tr1, v1⟩, t1⟩ := p1
       obtain ⟨⟨tr2, v2⟩, t2⟩ := p2
       rw [hf1] at h1; rw [hf2] at h2; dsimp only at h1 h2
-      have hv := follow_agree hD _ _ _ _ _ _ _ _ _ _ hc1 hc2 rfl hf1 hf2
+      have hv := follow_agree _ _ _ _ _ _ _ _ _ _ hc1 hc2 hf1 hf2
       simp only [Prod.mk.injEq] at hv
       obtain ⟨_, hv⟩ := hv; subst hv
-      obtain ⟨hc1', _, hv1⟩ := follow_correct hD n1 _ _ _ _ _ hc1 rfl hf1 (agreeOn_refl _ _)
-      obtain ⟨hc2', _, hv2⟩ := follow_correct hD n2 _ _ _ _ _ hc2 rfl hf2 (agreeOn_refl _ _)
+      obtain ⟨hc1', _, hv1⟩ := follow_correct n1 _ _ _ _ _ hc1 hf1 (agreeOn_refl _ _)
+      obtain ⟨hc2', _, hv2⟩ := follow_correct n2 _ _ _ _ _ hc2 hf2 (agreeOn_refl _ _)
       cases hga1 : getAttr D n1 t1 y v1 with
       | error e => rw [hga1] at h1; cases h1
       | ok q1 =>
@@ -288,10 +280,10 @@ theorem attrChain_agree {D : Disk} (hD : AbsDisk D) {n1 n2 : Nat} {st1 st2 : St}
           obtain ⟨oe1, u1⟩ := q1
           obtain ⟨oe2, u2⟩ := q2
           rw [hga1] at h1; rw [hga2] at h2
-          have hoe := getAttr_agree hD hc1' hc2' hv1 hv2 hga1 hga2
+          have hoe := getAttr_agree hc1' hc2' hv1 hv2 hga1 hga2
           subst hoe
-          obtain ⟨hc1'', _, hea⟩ := getAttr_correct hD hc1' hv1 hga1 (agreeOn_refl _ _)
-          obtain ⟨hc2'', _, _⟩ := getAttr_correct hD hc2' hv2 hga2 (agreeOn_refl _ _)
+          obtain ⟨hc1'', _⟩ := getAttr_correct hc1' hv1 hga1 (agreeOn_refl _ _)
+          obtain ⟨hc2'', _⟩ := getAttr_correct hc2' hv2 hga2 (agreeOn_refl _ _)
           cases oe1 with
           | none =>
             simp only [Except.ok.injEq, Prod.mk.injEq] at h1 h2; rw [← h1.1, ← h2.1]
@@ -308,6 +300,6 @@ theorem attrChain_agree {D : Disk} (hD : AbsDisk D) {n1 n2 : Nat} {st1 st2 : St}
                 obtain ⟨w2, x2⟩ := w2
                 rw [hg1] at h1; rw [hg2] at h2
                 simp only [Except.ok.injEq, Prod.mk.injEq] at h1 h2
-                rw [← h1.1, ← h2.1, follow_agree hD _ _ _ _ _ _ _ _ _ _ hc1'' hc2'' (hea k e rfl) hg1 hg2]
+                rw [← h1.1, ← h2.1, follow_agree _ _ _ _ _ _ _ _ _ _ hc1'' hc2'' hg1 hg2]
 
 end SuppModel.Proj
